@@ -65,7 +65,7 @@ Definition cbind {A B} (rc : cres A * cost) (k : A -> nat -> cres B * cost) : cr
 Definition ELEM_SIZE : N := 32.                        (* size_of::<RespIndex>() *)
 Definition ISIZE_MAX : N := 9223372036854775807.
 Definition USIZE_MOD : N := 18446744073709551616.
-Definition SHARED_SIZE : N := 64.                      (* upper bound for the bytes crate's shared header *)
+Definition SHARED_SIZE : N := 40.                      (* the shared header allocated by BytesMut::split_to (bytes 1.2.1, 64 bit) *)
 
 (* number of DataIndex-carrying nodes visited by advance / map *)
 Fixpoint isize (r : iresp) : N :=
